@@ -523,8 +523,11 @@ class Executor:
         if not is_sym(a) and not is_sym(b):
             if isinstance(a, (Obj, Seq)) or isinstance(b, (Obj, Seq)):
                 raise Undecided("comparison of objects")
-            return {ast.Eq: lambda: a == b, ast.NotEq: lambda: a != b, ast.Lt: lambda: a < b,
-                    ast.LtE: lambda: a <= b, ast.Gt: lambda: a > b, ast.GtE: lambda: a >= b}[type(op)]()
+            try:
+                return {ast.Eq: lambda: a == b, ast.NotEq: lambda: a != b, ast.Lt: lambda: a < b,
+                        ast.LtE: lambda: a <= b, ast.Gt: lambda: a > b, ast.GtE: lambda: a >= b}[type(op)]()
+            except TypeError as e:
+                raise PyRaise("TypeError", str(e))      # the code under analysis compares incomparable values
         a, b = z3ify(a), z3ify(b)
         if a is None or b is None or isinstance(a, (str, tuple)) or isinstance(b, (str, tuple)):
             if isinstance(op, ast.Eq):
@@ -605,6 +608,10 @@ class Executor:
         if a is None or b is None:
             raise PyRaise("TypeError", "arithmetic on None")
         sym = is_sym(a) or is_sym(b)
+        if isinstance(op, (ast.BitOr, ast.BitAnd)) and all(isinstance(x, (bool, z3.BoolRef)) for x in (a, b)):
+            if not sym:
+                return (a | b) if isinstance(op, ast.BitOr) else (a & b)
+            return z3.Or(z3ify(a), z3ify(b)) if isinstance(op, ast.BitOr) else z3.And(z3ify(a), z3ify(b))
         if isinstance(a, z3.BoolRef):
             a = z3.If(a, 1, 0)
         if isinstance(b, z3.BoolRef):
@@ -836,6 +843,31 @@ class Executor:
 
     def ev_GeneratorExp(self, node, st, fr):
         return self.comprehension(node, st, fr)
+
+    def ev_DictComp(self, node, st, fr):
+        if len(node.generators) != 1:
+            raise Undecided("nested dict comprehension")
+        g = node.generators[0]
+        items = self.iter_concrete(self.ev(g.iter, st, fr), st)
+        out = {}
+        saved = dict(st.locals)
+        try:
+            for x in items:
+                self.assign_target(g.target, x, st, fr)
+                ok = True
+                for c in g.ifs:
+                    ok = ok and self.decide(st, self.ev(c, st, fr))
+                if ok:
+                    k = self.ev(node.key, st, fr)
+                    if is_sym(k):
+                        raise Undecided("symbolic dict key in comprehension")
+                    out[k] = self.ev(node.value, st, fr)
+        finally:
+            for kk in list(st.locals):
+                if kk not in saved:
+                    del st.locals[kk]
+            st.locals.update(saved)
+        return out
 
     def comprehension(self, node, st, fr):
         if len(node.generators) != 1:
